@@ -8,6 +8,42 @@
 //!
 //! Output: `FAIL --prop <name> --seed <s> --run <k> --steps <S>` / `REASON <kind>: <text>` /
 //! indented trace lines, or `MONITOR-OK runs=R calls=N`.
+//!
+//! REASON kinds per `--prop` (`all` = every one of them):
+//! * no_panic (C20): `panic:<message> @ <file>:<line> [<source token>]`, `step-not-rejected`,
+//!   `rejected-step-changed-state`
+//! * election_safety (C02): `two-leaders`
+//! * sm_safety (C01): `divergent-commit`, `self-contradiction`
+//! * leader_completeness (C03): `leader-incomplete`, `vote-restriction`
+//! * vote_restriction (C03): `vote-restriction`
+//! * commit_rule (C04): `commit-old-term`, `commit-without-quorum`, `follower-commit-ahead`
+//! * log_matching (C05): `log-mismatch`, `leader-log-shrunk`, `leader-log-rewrite`, `commit-regress`,
+//!   `committed-entry-changed`, `committed-entry-lost`
+//! * persist_before_send (C06): `unpersisted-release`, `double-vote`, `term-regress`, `vote-changed`,
+//!   `restart-state`, `restart-behind-promise`
+//! * ready_contract (C07): `apply-gap`, `apply-duplicate`, `apply-altered`, `apply-unpersisted`,
+//!   `apply-uncommitted`, `apply-with-snapshot`, `snapshot-behind-applied`, `persist-handout-mismatch`,
+//!   `persist-duplicate`, `hs-handout`, `must-sync-missing`, `has-ready-mismatch`, `has-ready-false-negative`
+//! * read_index (C08): `stale-read`, `read-wrong-node`
+//! * conf_change (C09): `two-pending-cc`, `inherited-pending-cc` (only with --strict, otherwise a NOTE),
+//!   `campaign-with-pending-cc`, `non-voter-campaign`, `nonvoter-campaign-by-api` (only with
+//!   --learner-campaign), `promotable-mismatch`, `conf-divergence`, `conf-return-mismatch`,
+//!   `conf-changed-by-failed-apply`, `conf-changed-outside-apply`
+//! * progress (C10): `stuck`, `stuck-no-leader`, `stuck-request-snapshot`, `stuck-nonvoter-higher-term`
+//! * flow_control (C13): `append-anchor`, `append-not-contiguous`, `append-not-own-log`,
+//!   `append-commit-ahead`, `append-oversize`, `heartbeat-commit`, `inflight-overflow`, `inflight-miscount`,
+//!   `append-during-snapshot`, `probe-burst`, `append-while-probe-paused`, `uncommitted-overflow`
+//! * snapshot (C15): `snapshot-behind-commit`, `snapshot-non-member`, `snapshot-needless-install`,
+//!   `snapshot-install-state`, `snapshot-ignored-but-changed`, `snapshot-ignored-but-commit-moved`,
+//!   `snapshot-to-unknown`, `snapshot-unneeded`, `snapshot-progress-state`, `snapshot-uncommitted`,
+//!   `snapshot-resume`
+//! * prevote (C16): `prevote-changed-state`, `term-raised-without-prevote-quorum`, `leader-disrupted`,
+//!   `majority-term-changed` (the last two in the dedicated scenario: odd runs of `--prop prevote`,
+//!   every fifth run of `--prop all`)
+//! * transfer (C17): `timeout-now-premature`, `proposal-during-transfer`, `transfer-not-abandoned`,
+//!   `transfer-to-non-voter`, `transfer-to-self`
+//! Output also carries `NOTE <n> <text>` (non-failing observations), `IGNORED <n> <substring>` and
+//! `COVER <n> <check>` (how often a check was exercised) lines after MONITOR-OK.
 use crate::node::*;
 use crate::sim::*;
 use crate::util::*;
@@ -435,10 +471,11 @@ impl MonitorSet {
         let msg = format!("{}: {}", kind, text);
         let norm = msg.replace(' ', "_");
         for ig in &self.ignore {
-            if !ig.is_empty() && norm.contains(ig.as_str()) {
-                *self.ignored.entry(kind.to_string()).or_insert(0) += 1;
+            if !ig.is_empty() && (norm.contains(ig.as_str()) || msg.contains(ig.as_str())) {
+                *self.ignored.entry(ig.clone()).or_insert(0) += 1;
                 if !kind.starts_with("panic") {
                     // the ghost state is no longer meaningful for this run: abandon it
+                    // (after a panic the node is dead and the run goes on with the others)
                     self.halt = true;
                 }
                 return;
@@ -475,7 +512,7 @@ impl MonitorSet {
         self.ids = sim.nodes.iter().map(|n| n.id).collect();
         self.ensure(sim.nodes.len());
         if let Some(n) = sim.nodes.first() {
-            let cs = n.store.initial_state().unwrap().conf_state;
+            let cs = n.durable.initial_state().unwrap().conf_state;
             self.conf_after.insert(0, conf_key(&cs));
         }
         if self.inj("election_safety") {
@@ -535,6 +572,9 @@ impl MonitorSet {
         }
     }
 
+    /// The oldest written Ready of node i became durable.
+    pub fn on_fsync(&mut self, _sim: &Sim, _i: usize) {}
+
     pub fn on_crash(&mut self, _sim: &Sim, i: usize) {
         self.ensure(i + 1);
         self.snaps[i] = None;
@@ -560,12 +600,10 @@ impl MonitorSet {
                 let flat = m.replace('\n', " ");
                 let first_line = m.lines().next().unwrap_or("");
                 let first_line = first_line.split(", raft_id").next().unwrap_or(first_line);
-                let mut head: String = first_line.chars().take(70).collect();
-                if head.starts_with("assertion") || head.starts_with("called `") || head.starts_with("attempt to") || head.starts_with("index out of") {
-                    let base = loc.rsplit('/').next().unwrap_or(loc);
-                    head = format!("{} @ {}", head, base);
-                }
-                self.fail(&format!("panic:{}", head), format!("node {} (role {:?}, term {}) panicked in {} at {}: {}", pre.snap.id, pre.snap.role, pre.snap.term, call_brief(c), loc, flat));
+                let head: String = first_line.chars().take(90).collect();
+                // stable format: panic:<message> @ <file>:<line> [<source text at that line as one token>]
+                let kind = format!("panic:{} @ {} [{}]", head, loc, source_token(loc));
+                self.fail(&kind, format!("node {} (role {:?}, term {}) panicked in {}: {}", pre.snap.id, pre.snap.role, pre.snap.term, call_brief(c), flat));
             }
             return;
         }
@@ -595,8 +633,8 @@ impl MonitorSet {
 pub fn describe(sim: &Sim) -> Vec<String> {
     let mut out = vec![];
     for n in &sim.nodes {
-        let hs = n.store.initial_state().map(|s| s.hard_state).unwrap_or_default();
-        let st = format!("store(term {} vote {} commit {} first {} last {}) app_applied {}", hs.term, hs.vote, hs.commit, n.store.first_index().unwrap_or(0), n.store.last_index().unwrap_or(0), n.applied);
+        let hs = n.durable.initial_state().map(|s| s.hard_state).unwrap_or_default();
+        let st = format!("durable(term {} vote {} commit {} first {} last {}) live-store last {} unsynced Readies {} app_applied {}", hs.term, hs.vote, hs.commit, n.durable.first_index().unwrap_or(0), n.durable.last_index().unwrap_or(0), n.store.last_index().unwrap_or(0), n.unsynced.len(), n.applied);
         match n.driver.as_ref() {
             None => out.push(format!("node {} DOWN {}", n.id, st)),
             Some(d) => {
@@ -613,6 +651,38 @@ pub fn describe(sim: &Sim) -> Vec<String> {
     }
     out.push(format!("network: {} messages in flight", sim.net.len()));
     out
+}
+
+/// The source text at `file:line` squeezed into one identifier-like token ("?" if unreadable).
+pub fn source_token(loc: &str) -> String {
+    let mut it = loc.rsplitn(2, ':');
+    let line: usize = it.next().and_then(|x| x.parse().ok()).unwrap_or(0);
+    let file = it.next().unwrap_or("");
+    let text = match std::fs::read_to_string(file) {
+        Ok(t) => t,
+        Err(_) => return "?".to_string(),
+    };
+    let lines: Vec<&str> = text.lines().collect();
+    if line == 0 || line > lines.len() {
+        return "?".to_string();
+    }
+    // a multi-line expression: the panic location is its first line; take up to three lines
+    let hi = (line + 2).min(lines.len());
+    let joined = lines[line - 1..hi].join(" ");
+    let stmt = joined.split(';').next().unwrap_or("");
+    let mut out = String::new();
+    let mut last_us = true;
+    for ch in stmt.chars() {
+        if ch.is_ascii_alphanumeric() {
+            out.push(ch);
+            last_us = false;
+        } else if !last_us {
+            out.push('_');
+            last_us = true;
+        }
+    }
+    let out = out.trim_matches('_').to_string();
+    out.chars().take(60).collect()
 }
 
 pub fn call_brief(c: &Call) -> String {
@@ -636,7 +706,7 @@ pub fn main(args: &[String]) {
     let only: Option<u64> = arg(args, "--run", "").parse().ok();
     let inject = arg(args, "--inject", "");
     let ignore_s = arg(args, "--ignore", "");
-    let ignore: Vec<String> = ignore_s.split(',').filter(|s| !s.is_empty()).map(|s| s.replace(' ', "_")).collect();
+    let ignore: Vec<String> = ignore_s.split(',').filter(|s| !s.is_empty()).map(|s| s.to_string()).collect();
     let strict = args.iter().any(|a| a == "--strict");
     let verbose = args.iter().any(|a| a == "--verbose");
     // By default the simulated application never calls campaign() on a node that is not a voter of
@@ -693,7 +763,8 @@ pub fn main(args: &[String]) {
                 line.push_str(&format!(" --inject {}", inject));
             }
             if !ignore.is_empty() {
-                line.push_str(&format!(" --ignore {}", ignore.join(",")));
+                // one token: spaces become '_' (the matcher accepts both forms)
+                line.push_str(&format!(" --ignore {}", ignore.join(",").replace(' ', "_")));
             }
             if strict {
                 line.push_str(" --strict");
